@@ -158,14 +158,15 @@ func (ei *resourceInformer) getCachedObjects() []kemtypes.ObjectAndFilterResult 
 	for _, obj := range ei.cachedObjects {
 		res = append(res, *obj)
 	}
-	ei.cacheLock.RUnlock()
 
-	// Reset eventBuf if needed.
+	// Reset eventBuf if needed. The cache stays locked until the buffer is reset: an event of a
+	// change applied after the copy above must stay in the buffer, it is not part of the result.
 	ei.eventBufLock.Lock()
 	if !ei.eventCbEnabled {
 		ei.eventBuf = nil
 	}
 	ei.eventBufLock.Unlock()
+	ei.cacheLock.RUnlock()
 	return res
 }
 
